@@ -700,6 +700,10 @@ def gen_for(prop, tier, seed):
             pre = [g.rb(), r.choice([0x0F, g.rb()]), g.rb()]
             for _ in range(3):
                 g.add("len c%d %s" % (1 + r.randrange(3), hx(pre + g.rbytes(r.randrange(0, 40)))), "continuation")
+        if T:
+            # all 2^24 three-byte prefixes, in-process in the executor against the closed form
+            for b0 in range(256):
+                g.add("lensweep %s %s" % (hb(b0), hx(g.rbytes(r.choice([0, 0, 3, 20])))), "sweep-2^24")
         # contexts c1..c3 with differing configuration/history are created up front
         pre_lines = [("ctx c1 23 7e 00.00001234.00ab", "ctx"), ("ctx c2 77 010203 01.cafebabe.0007", "ctx"),
                      ("ctx c3 00 - -", "ctx"), ("seteid c2 req 42", "setup"), ("seteid c2 resp 99", "setup")]
@@ -778,6 +782,29 @@ def gen_views(g, tier):
             for raw in sraws:
                 for v in vals:
                     g.add("view set %s %x %s" % (name, v, hx(raw)), "set:" + name)
+    # public constructors and the two header generators of the trait
+    cmds = list(range(0x15)) + [0xFF]
+    for rq in (0, 1):
+        for d in (0, 1):
+            for iid in (range(256) if T else list(range(0, 40)) + [0x3F, 0x40, 0x7F, 0x80, 0xE0, 0xFF, g.rb()]):
+                for cmd in (cmds if (T or iid % 8 == 0) else [r.choice(cmds)]):
+                    g.add("new ctrl %d %d %s %s" % (rq, d, hb(iid), hb(cmd)), "new:ctrl")
+    for v in range(256):
+        g.add("new transport %s" % hb(v), "new:transport")
+        g.add("new routing %s %s %s %s" % (hb(v % 4), hb(g.rb()), hb(g.rb()), hb(g.rb())), "new:routing")
+        g.add("new routing %s %s %s %s" % (hb(g.rb() % 4), hb(v), hb(255 - v), hb(v ^ 0x5A)), "new:routing")
+    for ic in (0, 1):
+        for t in TYPE_NAMES:
+            g.add("new body %d %s" % (ic, t), "new:body")
+    for v in [0, 1, 0xFF, 0x100, 0xFF00, 0x00FF, 0x1414, 0xFFFF] + [r.randrange(1 << 16) for _ in range(2000 if T else 200)]:
+        g.add("new pci %x" % v, "new:pci")
+    for v in [0, 1, 0xFF, 0xFF00, 0xFF0000, 0xFF000000, 0xFFFFFFFF, 0x12345678] + [r.randrange(1 << 32) for _ in range(2000 if T else 200)]:
+        g.add("new iana %x" % v, "new:iana")
+    for a in range(256):
+        cid = g.ctx(a, [], [(0, 1, 1)])
+        for dst in (range(256) if T else [0, 1, 0x7F, 0x80, 0xFF, a, a ^ 0xFF, g.rb()]):
+            g.add("hdr smbus %s %s" % (cid, hb(dst)), "hdr:smbus")
+            g.add("hdr transport %s %s" % (cid, hb(dst)), "hdr:transport")
     for b0 in range(256):
         vers = range(256) if T else list(range(0, 20)) + [b0 & 0x0F, 0xFF, 0x80]
         for v in vers:
